@@ -8,6 +8,7 @@ cat > "$D/rc" <<EOC
 [run]
 concurrency = multiprocessing
 parallel = True
+branch = ${COV_BRANCH:-False}
 sigterm = True
 source = ${FSIC_VERIF_REPO:-/repo}/fsic
 data_file = $D/.coverage
